@@ -14,6 +14,7 @@ import (
 	"github.com/hashicorp/raft"
 	"github.com/rqlite/rqlite/v10/db"
 	"github.com/rqlite/rqlite/v10/internal/fsutil"
+	"github.com/rqlite/rqlite/v10/internal/vhook"
 	"github.com/rqlite/rqlite/v10/snapshot/plan"
 )
 
@@ -50,8 +51,12 @@ func Upgrade7To8(old, new string, logger *log.Logger) (retErr error) {
 		}
 	}
 
+	vhook.Trace(new, "up78.start")
+	vhook.Crash("up78.start")
+
 	if !fsutil.DirExists(old) {
 		logger.Printf("old v7 snapshot directory does not exist at %s, nothing to upgrade", old)
+		vhook.Trace(new, "up78.noold")
 		return nil
 	}
 
@@ -65,15 +70,19 @@ func Upgrade7To8(old, new string, logger *log.Logger) (retErr error) {
 		if err := os.RemoveAll(old); err != nil {
 			return fmt.Errorf("failed to remove empty old snapshot directory %s: %s", old, err)
 		}
+		vhook.Trace(new, "up78.oldempty")
 		return nil
 	}
 
 	if fsutil.DirExists(new) {
 		logger.Printf("new snapshot directory %s exists", new)
+		vhook.Crash("up78.newexists.pre")
 		if err := os.RemoveAll(old); err != nil {
 			return fmt.Errorf("failed to remove old snapshot directory %s: %s", old, err)
 		}
 		logger.Printf("removed old snapshot directory %s as no upgrade is needed", old)
+		vhook.Trace(new, "up78.newexists")
+		vhook.Crash("up78.newexists")
 		return nil
 	}
 
@@ -81,6 +90,8 @@ func Upgrade7To8(old, new string, logger *log.Logger) (retErr error) {
 	if err := os.MkdirAll(newTmpDir, 0755); err != nil {
 		return fmt.Errorf("failed to create temporary snapshot directory %s: %s", newTmpDir, err)
 	}
+	vhook.Trace(new, "up78.tmp")
+	vhook.Crash("up78.tmp")
 
 	oldMeta, err := getNewest7Snapshot(old)
 	if err != nil {
@@ -100,6 +111,8 @@ func Upgrade7To8(old, new string, logger *log.Logger) (retErr error) {
 	if err := writeMeta(newSnapshotPath, oldMeta); err != nil {
 		return fmt.Errorf("failed to write new snapshot meta file to %s: %s", newSnapshotPath, err)
 	}
+	vhook.Trace(new, "up78.meta", "id", oldMeta.ID)
+	vhook.Crash("up78.meta")
 
 	// Ensure all file handles are closed before any directory is renamed or removed.
 	if err := func() error {
@@ -110,6 +123,8 @@ func Upgrade7To8(old, new string, logger *log.Logger) (retErr error) {
 			return fmt.Errorf("failed to create new SQLite file %s: %s", newSqlitePath, err)
 		}
 		defer newSqliteFd.Close()
+		vhook.Trace(new, "up78.dbcreated")
+		vhook.Crash("up78.dbcreated")
 
 		// Copy the old state file into the new generation directory.
 		oldStatePath := filepath.Join(old, oldMeta.ID, v7StateFile)
@@ -147,11 +162,15 @@ func Upgrade7To8(old, new string, logger *log.Logger) (retErr error) {
 				return fmt.Errorf("migrated SQLite file %s is not valid", newSqlitePath)
 			}
 		}
+		vhook.Trace(new, "up78.copied")
+		vhook.Crash("up78.copied")
 
 		// Ensure database file exists and convert to WAL mode.
 		if err := db.EnsureWALMode(newSqlitePath); err != nil {
 			return fmt.Errorf("failed to convert migrated SQLite file %s to WAL mode: %s", newSqlitePath, err)
 		}
+		vhook.Trace(new, "up78.wal")
+		vhook.Crash("up78.wal")
 		return nil
 	}(); err != nil {
 		return err
@@ -164,12 +183,16 @@ func Upgrade7To8(old, new string, logger *log.Logger) (retErr error) {
 	if err := fsutil.SyncDirParentMaybe(new); err != nil {
 		return fmt.Errorf("failed to sync parent directory of new snapshot directory %s: %s", new, err)
 	}
+	vhook.Trace(new, "up78.renamed")
+	vhook.Crash("up78.renamed")
 
 	// We're done! Remove old.
 	if err := fsutil.RemoveDirSync(old); err != nil {
 		return fmt.Errorf("failed to remove old snapshot directory %s: %s", old, err)
 	}
 	logger.Printf("upgraded v7 snapshot directory %s to %s", old, new)
+	vhook.Trace(new, "up78.removed")
+	vhook.Crash("up78.removed")
 	stats.Add(upgradeOk, 1)
 
 	return nil
@@ -196,6 +219,8 @@ func Upgrade8To10(old, new string, logger *log.Logger) (retErr error) {
 
 	// Remove incomplete plan file from an interrupted write.
 	os.Remove(planPath + ".tmp")
+	vhook.Trace(new, "up810.start")
+	vhook.Crash("up810.start")
 
 	// Check for existing plan (crash recovery).
 	if fsutil.FileExists(planPath) {
@@ -204,10 +229,13 @@ func Upgrade8To10(old, new string, logger *log.Logger) (retErr error) {
 		if err != nil {
 			return fmt.Errorf("reading upgrade plan: %w", err)
 		}
+		vhook.Trace(new, "up810.resume")
 		if err := p.Execute(plan.NewExecutor()); err != nil {
 			return fmt.Errorf("executing resumed upgrade plan: %w", err)
 		}
 		os.Remove(planPath)
+		vhook.Trace(new, "up810.planremoved")
+		vhook.Crash("up810.planremoved")
 		logger.Printf("resumed and completed upgrade of v8 snapshot directory to %s", new)
 		stats.Add(upgradeOk, 1)
 		return nil
@@ -215,6 +243,7 @@ func Upgrade8To10(old, new string, logger *log.Logger) (retErr error) {
 
 	if !fsutil.DirExists(old) {
 		logger.Printf("old v8 snapshot directory does not exist at %s, nothing to upgrade", old)
+		vhook.Trace(new, "up810.noold")
 		return nil
 	}
 
@@ -228,15 +257,19 @@ func Upgrade8To10(old, new string, logger *log.Logger) (retErr error) {
 		if err := os.RemoveAll(old); err != nil {
 			return fmt.Errorf("failed to remove empty old snapshot directory %s: %s", old, err)
 		}
+		vhook.Trace(new, "up810.oldempty")
 		return nil
 	}
 
 	if fsutil.DirExists(new) {
 		logger.Printf("new snapshot directory %s exists", new)
+		vhook.Crash("up810.newexists.pre")
 		if err := os.RemoveAll(old); err != nil {
 			return fmt.Errorf("failed to remove old snapshot directory %s: %s", old, err)
 		}
 		logger.Printf("removed old snapshot directory %s as no upgrade is needed", old)
+		vhook.Trace(new, "up810.newexists")
+		vhook.Crash("up810.newexists")
 		return nil
 	}
 
@@ -247,6 +280,7 @@ func Upgrade8To10(old, new string, logger *log.Logger) (retErr error) {
 	}
 	if snapID == "" {
 		logger.Printf("no v8-format snapshots found in %s, nothing to upgrade", old)
+		vhook.Trace(new, "up810.nosnap")
 		return nil
 	}
 
@@ -274,6 +308,8 @@ func Upgrade8To10(old, new string, logger *log.Logger) (retErr error) {
 	if err := plan.WriteToFile(p, planPath); err != nil {
 		return fmt.Errorf("writing upgrade plan: %w", err)
 	}
+	vhook.Trace(new, "up810.plan", "id", snapID)
+	vhook.Crash("up810.plan")
 
 	// Execute the plan.
 	if err := p.Execute(plan.NewExecutor()); err != nil {
@@ -284,6 +320,8 @@ func Upgrade8To10(old, new string, logger *log.Logger) (retErr error) {
 	if err := os.Remove(planPath); err != nil {
 		logger.Printf("failed to remove upgrade plan file %s: %v", planPath, err)
 	}
+	vhook.Trace(new, "up810.planremoved")
+	vhook.Crash("up810.planremoved")
 	logger.Printf("upgraded v8 snapshot directory %s to %s", old, new)
 	stats.Add(upgradeOk, 1)
 
